@@ -179,10 +179,18 @@ class HistGen:
             self.now += r.choice([0, 0, 0, 1, 1, 2])
 
     # --- protocol messages -----------------------------------------------------------------
-    def version(self, s, proto=0x502):
+    def version(self, s, proto=0x502, nul_hash=False):
         s.rs = (s.rs + 1) & 0xffff
         data = bytes([(proto >> 24) & 255, (proto >> 16) & 255, (proto >> 8) & 255, proto & 255, s.rs >> 8, s.rs & 255])
         seed = self.rng.randrange(1 << 31)
+        if nul_hash:
+            # a challenge whose login response starts with a NUL byte (or has one early): the case in which
+            # a string comparison of the response would stop early
+            for _ in range(4000):
+                h = login_stub(self.password, rand_after_seed(seed))
+                if h[0] == 0 or (0 in h[:4] and self.rng.randrange(4) == 0):
+                    break
+                seed = self.rng.randrange(1 << 31)
         self.emit_query(s.addr, qname(b'v', enc(0, data), self.domain), seed=seed)
         self.stats['version'] += 1
         if proto == 0x502:
@@ -198,12 +206,24 @@ class HistGen:
                     self.slot_last[i] = self.now
                     break
 
-    def login(self, s, good=True, uid=None, seed_delta=0):
+    def login(self, s, good=True, uid=None, seed_delta=0, mode=None):
         if uid is None:
             uid = s.uid if s.uid is not None else self.rng.randrange(16)
         h = login_stub(self.password, (s.seed + seed_delta) & 0xffffffff)
         if not good:
-            h = bytes((h[0] ^ 1,)) + h[1:]
+            if mode is None or mode == 'first':
+                h = bytes((h[0] ^ 1,)) + h[1:]
+            elif mode == 'last':
+                h = h[:15] + bytes((h[15] ^ 0x80,))
+            elif mode == 'zeros':
+                h = bytes(16) if h != bytes(16) else bytes([1]) + bytes(15)
+            elif mode == 'after-nul':
+                j = h.find(b'\0')
+                k = j + 1 if 0 <= j < 15 else 15
+                h = h[:k] + bytes((h[k] ^ 0x55,)) + h[k + 1:]
+            else:
+                k = int(mode) % 16
+                h = h[:k] + bytes((h[k] ^ 0x10,)) + h[k + 1:]
         s.rs = (s.rs + 1) & 0xffff
         data = bytes([uid & 255]) + h + bytes([s.rs >> 8, s.rs & 255])
         self.emit_query(s.addr, qname(b'l', enc(0, data), self.domain))
